@@ -140,6 +140,13 @@ def set_tag(o, kind, n):
     if o.tags is None:
         o.add_tags()
     text = "v" * n
+    if kind == "FLAC" and n in (5, 4000):
+        # cover art with a description outside ASCII goes with the tag edit (pictures are part of a FLAC file's tags)
+        from mutagen.flac import Picture
+        pic = Picture()
+        pic.type, pic.mime, pic.desc, pic.data = 3, "image/png", "\u041e\u0431\u043b\u043e\u0436\u043a\u0430 \u2014 \u00ab\u00c9t\u00e9\u00bb", b"\x89PNG\r\n" + bytes(range(64))
+        o.clear_pictures()
+        o.add_picture(pic)
     if kind in VC_TAGGED:
         o.tags["title"] = [text]
     elif kind == "MP4":
@@ -445,7 +452,12 @@ def direct_oracle(ctx, env, full, nperm, only=None):
             continue
         try:
             K(io.BytesIO(data))
-        except Exception:
+        except Exception as e:
+            if synth:
+                # a file this check built well-formed itself: "the chosen type loads the file"
+                ctx.violation("oracle", "%s (%s): the type cannot load a well-formed synthesised file (%s)" % (kind, f, type(e).__name__),
+                              {"runner": "c18.oracle", "sample": f, "kind": kind, "history": [], "name": "s" + ext, "how": "load",
+                               "options": None, "got": "raise " + type(e).__name__, "expected": kind})
             ctx.count("oracle-skip:malformed(type cannot load it)")
             continue
         concrete += 1
